@@ -22,6 +22,9 @@ pub enum Offset {
     ThroughThree(u16, u16, u16),
     /// containing mesh edge number e (in sorted order), turned about it by the angle
     ThroughEdge(u16, f64),
+    /// exactly through vertex i with the normal of the surface there (mean of the adjacent face normals) tilted by the
+    /// first angle in the azimuth of the second: at a saddle vertex four crossing segments meet in the vertex
+    TangentAtVertex(u16, f64, f64),
 }
 
 #[derive(Clone, Debug, Serialize, Deserialize)]
@@ -50,12 +53,12 @@ impl Property for C13 {
         Some(std::time::Duration::from_secs(20))
     }
     fn expected_labels() -> Vec<&'static str> {
-        vec!["closed_mesh", "open_mesh", "convex", "miss", "cut", "through_vertex", "split_pair", "split_one_side", "two_loops", "commutes", "exact_in_plane_edge", "exact_convex_loop"]
+        vec!["closed_mesh", "open_mesh", "convex", "miss", "cut", "through_vertex", "split_pair", "split_one_side", "two_loops", "commutes", "exact_in_plane_edge", "exact_convex_loop", "through_saddle_vertex", "through_vertex_closed_checked"]
     }
     fn strategy(t: Tier) -> BoxedStrategy<Case> {
         let gmax = t.pick(8, 14);
         let kind = prop_oneof![3 => closed_kind(2), 2 => open_kind(gmax)].boxed();
-        (clean_mesh(kind, 10.0), unit3(), prop_oneof![8 => unif(-0.2, 1.2).prop_map(Offset::Fraction), 1 => any::<u16>().prop_map(Offset::ThroughVertex), 1 => (any::<u16>(), any::<u16>(), any::<u16>()).prop_map(|(a, b, c)| Offset::ThroughThree(a, b, c)), 1 => (any::<u16>(), unif(0.0, 3.1416)).prop_map(|(e, a)| Offset::ThroughEdge(e, a))], iso3(10.0), any::<bool>())
+        (clean_mesh(kind, 10.0), unit3(), prop_oneof![8 => unif(-0.2, 1.2).prop_map(Offset::Fraction), 1 => any::<u16>().prop_map(Offset::ThroughVertex), 1 => (any::<u16>(), any::<u16>(), any::<u16>()).prop_map(|(a, b, c)| Offset::ThroughThree(a, b, c)), 1 => (any::<u16>(), unif(0.0, 3.1416)).prop_map(|(e, a)| Offset::ThroughEdge(e, a)), 1 => (any::<u16>(), prop_oneof![1 => Just(0.0), 2 => unif(0.0, 0.5)], unif(0.0, 6.2832)).prop_map(|(i, tilt, az)| Offset::TangentAtVertex(i, tilt, az))], iso3(10.0), any::<bool>())
             .prop_map(|(mut mesh, normal, offset, t, solid)| {
                 mesh.flip_all = false;
                 Case { mesh, normal, offset, t, solid }
@@ -65,6 +68,10 @@ impl Property for C13 {
     fn check(case: &Case) -> Verdict {
         check(case)
     }
+}
+
+fn margin_of(size: f64) -> f64 {
+    1e-4 * size
 }
 
 fn is_convex_kind(k: &MeshKind) -> bool {
@@ -137,13 +144,31 @@ fn check(case: &Case) -> Verdict {
             n = (p0 * ang.cos() + p1 * ang.sin()).normalize();
             exact = true;
         }
+        Offset::TangentAtVertex(i, tilt, az) => {
+            let vi = idx(*i, soup.v.len()) as u32;
+            let mut m = crate::oracle::V3::zeros();
+            for k in 0..soup.f.len() {
+                if soup.f[k].contains(&vi) {
+                    let (a, b, c) = soup.tri(k);
+                    m += (b - a).cross(&(c - a));
+                }
+            }
+            if m.norm() < 1e-9 * size * size {
+                return Verdict::Discard("vertex without a usable normal");
+            }
+            let m = m.normalize();
+            let t = if m.x.abs() < 0.9 { crate::oracle::V3::x() } else { crate::oracle::V3::y() };
+            let p0 = m.cross(&t).normalize();
+            let p1 = m.cross(&p0);
+            n = (m * tilt.cos() + (p0 * az.cos() + p1 * az.sin()) * tilt.sin()).normalize();
+        }
         _ => {}
     }
     let proj: Vec<f64> = soup.v.iter().map(|p| n.dot(&p.coords)).collect();
     let (lo, hi) = (proj.iter().cloned().fold(f64::INFINITY, f64::min), proj.iter().cloned().fold(f64::NEG_INFINITY, f64::max));
     let (d, robust) = match &case.offset {
         Offset::Fraction(f) => (lo + f * (hi - lo), false),
-        Offset::ThroughVertex(i) => (proj[idx(*i, proj.len())], true),
+        Offset::ThroughVertex(i) | Offset::TangentAtVertex(i, _, _) => (proj[idx(*i, proj.len())], true),
         Offset::ThroughThree(a, _, _) => (proj[idx(*a, proj.len())], false),
         Offset::ThroughEdge(e, _) => {
             let edges: Vec<(u32, u32)> = bm.topo.edge_faces.keys().cloned().collect();
@@ -195,6 +220,26 @@ fn check(case: &Case) -> Verdict {
     }
     if robust {
         cx.label("through_vertex");
+        // how many crossing segments of strictly straddling faces end in the chosen vertex: four or more at a saddle
+        if let Offset::ThroughVertex(i) | Offset::TangentAtVertex(i, _, _) = &case.offset {
+            let v = soup.v[idx(*i, soup.v.len())];
+            let ring = soup.f.iter().filter(|t| t.contains(&(idx(*i, soup.v.len()) as u32))).filter(|t| { let s: Vec<f64> = t.iter().map(|k| proj[*k as usize] - d).collect(); s.iter().any(|x| *x > margin_of(size)) && s.iter().any(|x| *x < -margin_of(size)) }).count();
+            let _ = v;
+            cx.label_if(ring >= 4, "through_saddle_vertex");
+        }
+        // "for a watertight mesh every section curve is closed" has no exception for planes through a vertex
+        // (asserted when that vertex is the only one within the margin of the plane - no in-plane edge, no grazing contact
+        // along an edge or face - and the plane has mesh on both sides)
+        let on_plane = proj.iter().filter(|p| (*p - d).abs() < margin).count();
+        let two_sided = proj.iter().any(|p| *p - d >= margin) && proj.iter().any(|p| *p - d <= -margin);
+        if bm.topo.closed && bm.topo.manifold && !bm.topo.vertex_only_contact && on_plane == 1 && two_sided {
+            cx.label("through_vertex_closed_checked");
+            for (ci, c) in curves.iter().enumerate() {
+                let p = c.points();
+                let gap = (p[0] - p[p.len() - 1]).norm();
+                ensure!(gap <= (1e-8 * scale).max(4e-6), "C13/section/open_curve_on_watertight_mesh/through_vertex", "plane through a vertex: curve {ci} of {} on a watertight mesh is open, ends {gap:e} apart ({} points)", curves.len(), p.len());
+            }
+        }
         // splitting must not panic either
         if let Err(m) = guarded(|| mesh.split(&plane)) {
             return Verdict::fail("C13/split/panic", m);
